@@ -80,20 +80,21 @@ def perturbations(case):
     if not case.get('probeable'):
         return
     if probed_rsa:
-        for d in (+1024, -1024):
+        for d in (+1024, -1024, -1, -6, +8):
             if S['rsa'] + d >= 1024:
                 yield ('rsa-size%+d' % d, 'Host key (%s) sizes' % sorted(probed_rsa)[0], L, dict(S, rsa=S['rsa'] + d))
     for cert in RSA_CERTS + [ED_CERT]:
         if cert in L['key']:
             if S['ca_type'] == 'rsa':
-                for d in (+1024, -1024):
+                for d in (+1024, -1024, -1, -8):
                     if S['ca'] + d >= 1024:
                         yield ('ca-size%+d-%s' % (d, cert[:8]), 'CA signature size (ssh-rsa)', L, dict(S, ca=S['ca'] + d))
                 yield ('ca-type-%s' % cert[:8], 'CA signature type', L, dict(S, ca_type='ed25519'))
             else:
                 yield ('ca-type-%s' % cert[:8], 'CA signature type', L, dict(S, ca_type='rsa'))
             if cert in RSA_CERTS:
-                yield ('cert-host-size-%s' % cert[:12], 'Host key (%s) sizes' % cert, L, dict(S, cert_host=S['cert_host'] + 1024))
+                for d in (+1024, -6, -1):
+                    yield ('cert-host-size%+d-%s' % (d, cert[:12]), 'Host key (%s) sizes' % cert, L, dict(S, cert_host=S['cert_host'] + d))
     if GEX in L['kex']:
         for d in (+1024, -1024):
             if S['gex'] + d >= (2048 if S.get('gex_style') == 'openssh' else 1024):      # an OpenSSH-style server never hands out less than 2048
@@ -240,6 +241,9 @@ def strat_peer():
             kex.append(GEX1)
         case = {'kind': 'roundtrip', 'role': role, 'probeable': probeable or GEX in kex, 'lists': {'kex': kex, 'key': key, 'enc': list(dict.fromkeys(enc)), 'mac': list(dict.fromkeys(mac))},
                 'sizes': {'rsa': rsa, 'ca': ca, 'ca_type': ca_type, 'cert_host': cert_host, 'gex': gex, 'gex_style': 'openssh' if (ca + gex) % 2048 == 0 else 'roundup', 'gex_sha1': ([3072, 4096, 2048][(rsa // 1024) % 3] if both else None)}}
+        case['banner'] = ['SSH-2.0-OpenSSH_9.6', 'SSH-2.0-OpenSSH_for_Windows_8.1', 'SSH-2.0-OpenSSH_8.9p1 Ubuntu-3ubuntu0.1', 'SSH-2.0-dropbear_2022.83', 'SSH-1.99-OpenSSH_7.4', 'SSH-2.0-OpenSSH'][(rsa // 1024 + ca // 1024 * 3 + cert_host // 1024 + len(kex)) % 6]
+        if 'OpenSSH' not in case['banner']:
+            case['sizes']['gex_style'] = 'roundup'       # (the 2048-bit fallback is OpenSSH's; only there does the tool look behind it)
         if (rsa + ca + gex) % 3072 == 0:
             # the other direction advertises something else (peers may list different algorithms per direction)
             case['enc_c'] = case['lists']['enc'][::-1] + ['aes128-ctr']
@@ -269,4 +273,4 @@ def run(ctx):
     ctx.map(bc)
     ctx.note(builtin_policy_cases=len(bc), builtin_policies=len(BUILTIN_POLICIES))
     return ctx.finish('exploration', 'Hypothesis peers (lists over database names, gss-* names, RFC names with = + / @; RSA / certificate / CA / GEX sizes; server and client role): -M, then -P on the same peer (text and JSON) and on every applicable single-attribute perturbation (add / add-front / remove / swap per list, host-key size, CA size, CA type, certificate host size, GEX modulus); all built-in policies against a peer configured as listed, with each optional host key',
-                      assumptions=['names are non-empty RFC 4251 names without leading/trailing blanks', 'size perturbations are in steps of 1024 bits on the 2048/3072/4096 grid'])
+                      assumptions=['names are non-empty RFC 4251 names without leading/trailing blanks', 'size perturbations: +-1024 bits on the 2048/3072/4096 grid and -1 / -6 / +-8 bits'])
